@@ -267,6 +267,8 @@ impl fmt::Debug for ProguardRecordIter<'_> {
 impl<'s> Iterator for ProguardRecordIter<'s> {
     type Item = Result<ProguardRecord<'s>, ParseError<'s>>;
     fn next(&mut self) -> Option<Self::Item> {
+        // Blank lines carry no record, also at the end of the input.
+        self.slice = consume_leading_newlines(self.slice);
         if self.slice.is_empty() {
             return None;
         }
